@@ -260,6 +260,25 @@ func (c *Compiled) Exec(env *val.Env) (res Result) {
 	return
 }
 
+// ExecFunc runs f under the session's observer and classifies the outcome.
+func (s *Session) ExecFunc(f func() *val.Val) (res Result) {
+	obs := &Obs{}
+	s.cur = obs
+	res.Obs = obs
+	defer func() {
+		if r := recover(); r != nil {
+			res.Msg = fmt.Sprint(r)
+			res.Class = Classify(res.Msg)
+			if len(obs.HostErrs) > 0 {
+				res.Class = OInternal
+			}
+		}
+	}()
+	res.Val = f()
+	res.Class = OValue
+	return
+}
+
 // Env is one set of bindings in reference form.
 type Env struct {
 	Names []string
